@@ -83,8 +83,8 @@ ConnEdges(pops, c) ==
                    ELSE (LET w == IF c.w = <<>> THEN c.sw ELSE c.w[i][j] IN
                          IF w = 0 THEN <<>>
                          ELSE <<[s |-> First(pops, c.sp) + j - 1, sv |-> "x", t |-> First(pops, c.tp) + i - 1, tv |-> c.tv,
-                                 w |-> w, tm |-> c.cpl = "pre", df |-> c.cpl = "diff",
-                                 g |-> CASE c.cpl = "pre" -> 3 [] c.cpl = "pre2" -> 6 [] OTHER -> 1]>>) \o Row(i, j + 1)
+                                 w |-> w, tm |-> c.cpl \in {"pre", "pre6"}, df |-> c.cpl = "diff",
+                                 g |-> CASE c.cpl = "pre" -> 3 [] c.cpl = "pre2" -> 6 [] c.cpl = "pre6" -> 6 [] OTHER -> 1]>>) \o Row(i, j + 1)
       RECURSIVE Rows(_)
       Rows(i) == IF i > nt THEN <<>> ELSE Row(i, 1) \o Rows(i + 1)
   IN Rows(1)
@@ -105,6 +105,13 @@ C16Progs(sizes) ==
   { Expand(<<[kind |-> "L", n |-> ns], [kind |-> "S", n |-> nt]>>,
            <<Conn(1, 2, "u", Mat(nt, ns, pat), 0, cpl), Conn(2, 1, "v", <<>>, sw, "none")>>) :
         ns \in sizes, nt \in sizes, pat \in WPats, cpl \in {"none", "diff"}, sw \in {1, -3} }
+  \cup \* two scalar (global) weights converging on one target variable
+  { Expand(<<[kind |-> "L", n |-> ns], [kind |-> "L", n |-> 2], [kind |-> "S", n |-> 3]>>,
+           <<Conn(1, 3, "u", <<>>, 2, "none"), Conn(2, 3, "u", <<>>, 0 - 3, "none")>>) : ns \in sizes }
+  \cup \* two coupling edges of one template (same equations) that differ in a constant only: gains 3 and 6
+  { Expand(<<[kind |-> "L", n |-> ns], [kind |-> "S", n |-> nt]>>,
+           <<Conn(1, 2, "u", Mat(nt, ns, pat), 0, c1), Conn(2, 1, "v", Mat(ns, nt, <<0, 2>>), 0, c2)>>) :
+        ns \in sizes, nt \in sizes, pat \in {<<2, 0, -3>>, <<2>>}, c1 \in {"pre", "pre6"}, c2 \in {"pre", "pre6"} }
   \cup \* two connections converging on one target variable from different populations
   { Expand(<<[kind |-> "L", n |-> ns], [kind |-> "L", n |-> 2], [kind |-> "S", n |-> 3]>>,
            <<Conn(1, 3, "u", Mat(3, ns, <<2, 0, -3>>), 0, "none"), Conn(2, 3, "u", Mat(3, 2, <<0, 2>>), 0, "none")>>) : ns \in sizes }
